@@ -30,22 +30,51 @@ class Report:
         self.assumptions = []
         self.t0 = time.time()
         self.extra = {}
+        self._borrow = None
+
+    def borrow(self, mapping):
+        """Context manager: run another property's rules and keep only the instances of the rules in `mapping`,
+        re-labelled as this property's own rule ids (a clause shared by two properties is checked once, reported by both)."""
+        rep = self
+
+        class _B:
+            def __enter__(self_):
+                rep._saved = (rep._borrow, dict(rep.extra))
+                rep._borrow = mapping
+
+            def __exit__(self_, *a):
+                rep._borrow, extra = rep._saved
+                rep.extra = extra
+                return False
+
+        return _B()
 
     # ---- declaring
     def clause(self, rule, text):
-        self.clauses[rule] = text
+        if self._borrow is None:
+            self.clauses[rule] = text
 
     def undecided(self, text):
-        self.not_decided.append(text)
+        if self._borrow is None:
+            self.not_decided.append(text)
 
     def assume(self, text):
-        self.assumptions.append(text)
+        if self._borrow is None:
+            self.assumptions.append(text)
 
     def floor(self, rule, n):
+        if self._borrow is not None:
+            if rule in self._borrow:
+                self.floors[self._borrow[rule]] = n
+            return
         self.floors[rule] = n
 
     # ---- recording
     def _add(self, status, rule, site, construct, detail):
+        if self._borrow is not None:
+            if rule not in self._borrow:
+                return
+            rule = self._borrow[rule]
         construct = " ".join(str(construct).split())
         self.instances.append(
             {"rule": rule, "site": site, "construct": construct, "status": status, "detail": detail}
